@@ -251,6 +251,17 @@ def gen_layered(rng, xs):
     k = rng.randrange(0, (m >> n) + 1) << n if n < w else 0
     consts = {k & m, (k + 1) & m, (k - 1) & m, rng.randrange(1 << w), rng.randrange(1 << w), (k + (1 << max(0, n - 1))) & m}
     out = []
+    if w <= 6 and x.size() <= 4 and rng.random() < 0.15:
+        # the other side is a second, multi-valued variable (annotated: few values, bounds around the alignment)
+        from claripy.annotation import StridedIntervalAnnotation
+        lo = rng.choice(sorted(consts))
+        st = rng.choice([1, 1, 2, 1 << max(0, n - 1), 1 << min(n, w - 1)])
+        cnt = rng.randrange(1, 5)
+        ya = vsa.norm(w, st, lo, lo + cnt * st) if lo + cnt * st <= m else vsa.norm(w, 1, lo, min(m, lo + cnt))
+        y = claripy.BVS(x.args[0] + "_r", w, explicit_name=True).annotate(StridedIntervalAnnotation(ya[1], ya[2], ya[3]))
+        for op in CMPS:
+            out.append((cmp_ast(op, lhs, y), y, ya))
+        return out
     for c in sorted(consts):
         for op in CMPS:
             rhs = claripy.BVV(c, w)
@@ -438,11 +449,15 @@ def run(ctx):
             stats["skipped_build_error:" + type(ex).__name__] += 1
             continue
         for c in cs:
+            cxs, cas = [x], [a]
+            if isinstance(c, tuple):
+                c, y, ya = c
+                cxs, cas = [x, y], [a, ya]
             ctx.count()
             if not hasattr(c, "op") or c.op == "BoolV":
                 stats["folded_to_constant"] += 1
                 continue
-            r = check_constraint(c, [x], [a])
+            r = check_constraint(c, cxs, cas)
             if r and r[0] == "skip":
                 stats["skipped:" + r[1]] += 1
                 continue
@@ -450,7 +465,7 @@ def run(ctx):
             stats["checked_layered"] += 1
             ctx.distinct(str(c))
             if r:
-                fails[r[0]].append((len(str(c)), r[1], c, [x], [a]))
+                fails[r[0]].append((len(str(c)), r[1], c, cxs, cas))
     for sig, lst in sorted(fails.items()):
         ln, what, c, xs, annos = min(lst, key=lambda t: (t[0], t[1]))
         ctx.violation(sig, what + "  [%d case(s)]" % len(lst), {
